@@ -295,6 +295,10 @@ func respond(r *env.Recorded) (*http.Response, error) {
 		return jsonReply(status, map[string]any{"digest": d, "allow": sum[0]%2 == 0, "quota": 4200000, "ratio": 0.5},
 			map[string]string{"X-Authz-Digest": d}), nil
 	case "contextualizer-endpoint":
+		if strings.HasPrefix(u.Path, "/unavailable") {
+			return env.Reply(nil, http.StatusServiceUnavailable, "text/plain", "down for maintenance"), nil
+		}
+
 		extra := map[string]string{}
 
 		if strings.HasPrefix(u.Path, "/hc/") {
